@@ -5,7 +5,7 @@ import ast
 
 import itertools
 
-from ..core import Run, AnalysisError
+from ..core import Run, AnalysisError, dotted
 from ..alg import T, num, var, op, normalize, same, C, Rat
 from ..pyreader import static_methods, PyReader, VVal, Sys, Raised
 
@@ -61,7 +61,24 @@ def check(run: Run) -> None:
     for name in ("add_cartesian_vectors", "subtract_cartesian_vectors", "scale_vector", "dot_vectors", "vector_magnitude", "cross_cartesian_vectors",
                  "vector_unit", "project_vector", "reject_cartesian_vector", "diff_cartesian_vector", "integrate_cartesian_vector", "equal_vectors"):
         run.require(any(getattr(s, "name", None) == name for s in mod.tree.body), f"{name} not found in arithmetics.py")
-    R = PyReader(mod.tree, where="arithmetics.py")
+    class _R(PyReader):
+
+        def hook_call(self, n, env, fns):
+            name = (dotted(n.func) or "").split(".")[-1]
+            if name in ("Abs", "abs") and len(n.args) == 1 and name not in self.functions:
+                v = self.ev(n.args[0], env, fns)
+                if isinstance(v, T) and not (v.op == "num" or (v.op == "neg" and v.args[0].op == "num")):
+                    # the components are generic indeterminates without assumptions: |x| is one more indeterminate (SymPy does not reduce x**2/Abs(x)**2 either)
+                    return var(f"Abs({normalize(v)!r})")
+            return NotImplemented
+
+        def hook_method(self, base, attr, args, kwargs, n):
+            if isinstance(base, VVal) and attr == "rebase" and len(args) == 1 and isinstance(args[0], Sys):
+                # re-expression in a related system succeeds (for an unrelated one the library raises): the case in which a sum of vectors of two systems is ANSWERED
+                return VVal([var(f"rebased({normalize(c)!r})") for c in base.components], args[0])
+            return NotImplemented
+
+    R = _R(mod.tree, where="arithmetics.py")
     csm = run.src.need("symplyphysics.core.coordinate_systems.coordinate_systems")
     R.extern_static = static_methods(next(c_ for c_ in csm.tree.body if isinstance(c_, ast.ClassDef) and c_.name == "CoordinateSystem"))
 
